@@ -180,6 +180,9 @@ func applyDelete(skel *Skeleton, path *Path) error {
 	if err != nil {
 		return err
 	}
+	if path.Segments[len(path.Segments)-1].Kind == SegAppend {
+		return fmt.Errorf("%w: DELETE cannot target append marker", ErrPathInvalid)
+	}
 	if cur.Target == nil {
 		return nil
 	}
